@@ -34,6 +34,10 @@ DRIVER_MODULES = ['Optim']
 BTOL = 1e-9          # relative slack on "inside the bounds" (exp(log(b)) can be one rounding off b)
 VTOL = 1e-9          # relative tolerance on likelihood values
 LOCAL_ALGS = ['LN_BOBYQA', 'LN_COBYLA', 'LN_NELDERMEAD', 'LN_SBPLX']
+EVAL_BUDGET = 20000  # model evaluations after which a call is stopped (healthy runs on these smooth toys need a few hundred)
+
+class EvalBudget(Exception):
+    pass
 
 # =============================================================================================== toy problems
 def toy_raw(toy):
@@ -43,7 +47,9 @@ def toy_raw(toy):
     inv = np.ones(n + 1); inv[1:] = 1.0 / np.arange(1, n + 1)
     nan_above = toy.get('nan_above')
     def f(params):
-        p = np.asarray(params, dtype=float).ravel()
+        # finite everywhere: an unbounded optimiser may step to exp(800) = inf; the toy then answers like a very bad finite point
+        # (a NaN/inf spectrum would make ll `masked`, see the note on the NaN guard in notes/C12.md).  NaN parameters stay NaN.
+        p = np.clip(np.asarray(params, dtype=float).ravel(), -1e12, 1e12)
         with np.errstate(all='ignore'):
             if kind == 'exp':            # any sign of the parameters (selection-like coefficients)
                 e = np.zeros(n + 1)
@@ -80,6 +86,8 @@ class Problem:
         self.data = dadi.Spectrum(base * (1.0 + nz) * float(toy.get('depth', 1.0)))
         self.calls = []
     def model_func(self, params, ns, pts):
+        if len(self.calls) >= EVAL_BUDGET:
+            raise EvalBudget('%d model evaluations' % len(self.calls))
         self.calls.append(np.array(params, dtype=float).ravel().copy())
         return self.dadi.Spectrum(self.raw(params))
     def ll(self, full, multinom):
@@ -294,6 +302,11 @@ def run_optim(chk, ctx, spec, sample=True):
         except Exception as e:
             exc = e
     calls = [c.tolist() for c in pb.calls]
+    if exc is not None and (isinstance(exc, EvalBudget) or len(pb.calls) >= EVAL_BUDGET):   # nlopt re-raises it as SystemError
+        chk.fail('%s:no_termination' % keyw, '%s(%s) was still evaluating the model after %d evaluations (tolerances and iteration limits at their '
+                 'documented defaults unless given)' % (w, describe(spec), EVAL_BUDGET), spec)
+        chk.stat('stopped_after_budget:' + tn)
+        return dict(raised=exc, rec=rec)
     if exc is not None:
         chk.fail('%s:raises:%s:%s' % (keyw, type(exc).__name__, exc_slug(exc)),
                  '%s(%s) raises %s: %s' % (w, describe(spec), type(exc).__name__, str(exc)[:200]), spec)
@@ -337,7 +350,14 @@ def run_optim(chk, ctx, spec, sample=True):
         if w != 'optimize_grid' and not in_box(xret.tolist(), lower, upper):
             bad('result_in_bounds', 'returned %r outside lower %r / upper %r' % (xret.tolist(), lower, upper))
         llr = pb.ll(xret, multinom)
-        if fret is not None and not math.isfinite(fret):
+        # hypothesis of the likelihood clauses: the optimiser answered with one of its own (query, value) pairs.  scipy's L-BFGS-B / SLSQP
+        # occasionally answer with a point they never evaluated; that is the optimiser's doing, reported as a statistic, and the
+        # two likelihood clauses are not claimed for such a run.
+        ans_eval = answer_evaluated(rec, spec)
+        if not ans_eval: chk.stat('optimizer_answer_not_an_evaluated_pair:' + tn)
+        if not ans_eval and not (fret is not None and not math.isfinite(fret)):
+            pass
+        elif fret is not None and not math.isfinite(fret):
             bad('reported_not_finite', 'reported optimum %r for the returned parameters %r (their %s is %r)'
                 % (fret, xret.tolist(), 'll' if w == 'opt' else '-ll/ll_scale', llr if w == 'opt' else -llr / scale))
         elif not math.isfinite(llr):
@@ -347,7 +367,7 @@ def run_optim(chk, ctx, spec, sample=True):
             if not (math.isfinite(fret) and abs(expect - fret) <= VTOL * max(abs(expect), abs(fret))):
                 bad('ll_result_is_reported', 'reported optimum %r, but the returned parameters %r have %s = %r'
                     % (fret, xret.tolist(), 'll' if w == 'opt' else '-ll/ll_scale', expect))
-        if w == 'opt' and math.isfinite(llr):
+        if w == 'opt' and math.isfinite(llr) and ans_eval:
             ll0 = pb.ll(start_full(spec), multinom)
             if not (llr >= ll0 - VTOL * abs(llr)):
                 bad('no_worse_than_start', 'll(returned) = %r < ll(start) = %r' % (llr, ll0))
@@ -359,6 +379,20 @@ def run_optim(chk, ctx, spec, sample=True):
     # ---------------------------------------------------------------- K: Lean replay of the trace
     k_trace(chk, ctx, spec, pb, rec, calls, xret, fret, verdict, scale)
     return dict(raised=None, rec=rec, verdict=verdict, xret=xret, fret=fret, calls=calls)
+
+def raw_answer(b, spec):
+    out = b['out']
+    if b['optimizer'] == 'scipy.optimize.brute':
+        return (np.asarray(out[0] if spec['full_output'] else out, dtype=float).ravel(), float(out[1]) if spec['full_output'] else None)
+    return np.asarray(out[0], dtype=float).ravel(), (None if out[1] is None else float(out[1]))
+
+def answer_evaluated(rec, spec):
+    if len(rec) != 1 or rec[0]['out'] is None: return False
+    b = rec[0]
+    x, f = raw_answer(b, spec)
+    if f is None:        # grid search without full output: brute returns the best grid point
+        return any(np.array_equal(q, x) for q in b['queries'])
+    return any(np.array_equal(q, x) and v == f for q, v in zip(b['queries'], b['values']))
 
 def describe(spec):
     d = {k: spec.get(k) for k in ('p0', 'lower', 'upper', 'fixed', 'multinom', 'll_scale', 'maxiter', 'log_opt', 'algorithm', 'full_output', 'grid')
@@ -412,10 +446,9 @@ def k_trace(chk, ctx, spec, pb, rec, calls, xret, fret, verdict, scale):
         chk.k_bad(op, spec, 'optimiser called %d times' % len(rec), 'exactly one call', None); return
     b = rec[0]
     out = b['out']
-    if b['optimizer'] == 'scipy.optimize.brute':
-        xraw = np.asarray(out[0] if spec['full_output'] else out, dtype=float).ravel(); fraw = float(out[1]) if spec['full_output'] else 0.0
-    else:
-        xraw = np.asarray(out[0], dtype=float).ravel(); fraw = float(out[1])
+    xraw, fraw = raw_answer(b, spec)
+    if fraw is None:      # grid search without full output: the value brute found at the point it returns
+        fraw = next((v for q, v in zip(b['queries'], b['values']) if np.array_equal(q, xraw)), 0.0)
     if not (np.all(np.isfinite(xraw)) and math.isfinite(fraw)) or not all(np.all(np.isfinite(q)) for q in b['queries']) \
        or not all(math.isfinite(v) for v in b['values']):
         chk.k_skipped += 1; chk.stat('trace_nonfinite_skipped'); return
@@ -447,7 +480,7 @@ def k_trace(chk, ctx, spec, pb, rec, calls, xret, fret, verdict, scale):
     ans = driver.ask('c12.trace %s %s %s %s' % (head, tok_vecs(uniq), ','.join(lls) if lls else '-', tail))
     if not ans.startswith('ok '):
         chk.k_bad(op, spec, 'ran without error', ans, None); return
-    m_start, m_olo, m_oup, m_vals, m_evals, m_result, m_rep, m_failed = ans[3:].split(' ')
+    m_start, m_olo, m_oup, m_vals, m_evals, m_result, m_rep, m_failed, m_anse = ans[3:].split(' ')
     probs = []
     # start handed to the optimiser
     ms = None if m_start == 'N' else [float(x) for x in parse_list(m_start)]
@@ -491,6 +524,8 @@ def k_trace(chk, ctx, spec, pb, rec, calls, xret, fret, verdict, scale):
     # the clauses re-derived by checkTrace must be the ones the direct oracle found
     mf = set() if m_failed == '-' else set(m_failed.split(','))
     if fret is None: mf.discard('ll_result_is_reported')
+    if (m_anse == '1') != answer_evaluated(rec, spec):
+        chk.k_bad('clauses:' + tn, spec, 'answer evaluated: %r' % answer_evaluated(rec, spec), 'answer evaluated: ' + m_anse, None); return
     lf = set(verdict) - {'grid_best', 'reported_not_finite'}
     if mf == lf: chk.k_ok('clauses:' + tn)
     else: chk.k_bad('clauses:' + tn, spec, sorted(lf), sorted(mf), None)
